@@ -230,8 +230,14 @@ class Program:
         fi = self.functions.get(key)
         if fi is not None:
             return fi
-        # a module-level function that moved to another module of the package and is imported back under its name
         rel, _, qual = key.partition("::")
+        # a method of a class that moved to another module of the package (class names are unique in the package)
+        if "." in qual:
+            cname, _, mname = qual.partition(".")
+            ci = self.classes.get(cname)
+            if ci is not None and ci.relpath != rel and "." not in mname and mname in ci.methods:
+                return ci.methods[mname]
+        # a module-level function that moved to another module of the package and is imported back under its name
         m = self.modules.get(rel)
         if m is not None and qual and "." not in qual and qual in m.imports:
             target = m.imports[qual]
